@@ -1434,14 +1434,26 @@ class Exec:
             for k, a in kwargs.items(): vals[k] = self.co(a, ty.fty(k))
             if len(vals) != len(ty.fields):
                 src = self.w.rec_src.get(ty.name)
-                if src:
-                    node, _ = repo.find_def(*src)
+                todo = [src] if src else []; seen_ = set()
+                while todo:       # field defaults of the class and (dataclass inheritance) of its bases
+                    rel_, cls_ = todo.pop(0)
+                    if (rel_, cls_) in seen_: continue
+                    seen_.add((rel_, cls_))
+                    node, _ = repo.find_def(rel_, cls_)
                     for st in node.body:
-                        if isinstance(st, ast.AnnAssign) and isinstance(st.target, ast.Name) and st.value is not None and st.target.id not in vals:
+                        if isinstance(st, ast.AnnAssign) and isinstance(st.target, ast.Name) and st.value is not None and st.target.id not in vals and st.target.id in dict(ty.fields):
                             saved = self.st.env; self.st.env = {}
-                            self.frames.append(dict(rel=src[0], func=None, contract=None))
+                            self.frames.append(dict(rel=rel_, func=None, contract=None))
                             try: vals[st.target.id] = self.co(self.eval(st.value), ty.fty(st.target.id))
                             finally: self.frames.pop(); self.st.env = saved
+                    for b_ in node.bases:
+                        saved = self.st.env; self.st.env = {}
+                        self.frames.append(dict(rel=rel_, func=None, contract=None))
+                        try:
+                            try: bobj = self.eval(b_)
+                            except Unsupported: bobj = None
+                        finally: self.frames.pop(); self.st.env = saved
+                        if isinstance(bobj, ClassRef): todo.append((bobj.rel, bobj.name))
                 if len(vals) != len(ty.fields): raise Unsupported('record constructor: missing fields %s' % [f for f, _ in ty.fields if f not in vals])
             return V(ty, vals)
         raise Unsupported('constructing %r' % ty)
